@@ -29,7 +29,7 @@ def run(ctx):
     # every ordered pair of feature snippets x every composition mode (spec/FamPairs.tla): the pairs whose highest property is this one
     failures += progflow.judge(ctx, progflow.pair_cases(ctx, "C01"), "pairs")
     # run-time histories (spec/FamHist.tla): the same constructs visited again and again along different dynamic paths
-    failures += progflow.judge(ctx, progflow.hist_cases(ctx, ("loops", "loopsfn", "iter")), "hist")
+    failures += progflow.judge(ctx, progflow.hist_cases(ctx, ("loops", "loopsfn", "loopsnest", "iter")), "hist")
     # every control skeleton up to a size (spec/FamSkel.tla): all nestings and sequencings of 8 constructs, one jump site at most
     failures += progflow.judge(ctx, progflow.skel_cases(ctx), "skel")
     progflow.report(ctx, failures)
